@@ -460,6 +460,67 @@ theorem inverseTransform_accuracy (u01 : U01 G) (findRoot : (Rat → Rat) → Ra
   obtain ⟨r, h0, h1⟩ := hroot (fun x => (sampleUniform u01 g 0 1).1 - cdf x) a b (itransTol a b)
   exact ⟨r, by linarith, h1⟩
 
+/-! ## The acceptance rule at 0/0 (fifth-wave seed C18-n; C18-f in one dimension) -/
+
+/-- `accProb` is the coded `std::min(1.0, PDF(c)/PDF(x))` with its IEEE classes, for uniforms in `[0,1)` -/
+theorem accProb_is_minOneLeft (pc px u : Rat) (hu : 0 ≤ u) :
+    acceptD u (minOneLeft (pdfRatio pc px)) = decide (u < accProb pc px) := by
+  unfold pdfRatio accProb
+  by_cases hx : px = 0
+  · simp only [hx, if_true]
+    by_cases h0 : pc = 0
+    · simp [h0, minOneLeft, acceptD]
+    · by_cases hp : pc > 0
+      · simp [h0, hp, minOneLeft, acceptD, not_lt.mpr (le_of_lt hp)]
+      · have hn : pc < 0 := lt_of_le_of_ne (not_lt.mp hp) h0
+        simp only [h0, hp, if_false, minOneLeft, acceptD, hn, if_true]
+        symm; rw [decide_eq_false_iff_not]; intro h; linarith
+  · simp only [hx, if_false, minOneLeft, acceptD, rmin]
+
+/-- a current point of density exactly 0 accepts every proposal of density 0 (0/0 = NaN, `std::min(1.0, NaN) = 1.0`)
+    and of positive density: the chain random-walks across an exact-zero plateau to the support -/
+theorem zero_density_accepts (pc u : Rat) (hpc : 0 ≤ pc) (hu1 : u < 1) :
+    acceptD u (minOneLeft (pdfRatio pc 0)) = true := by
+  unfold pdfRatio
+  by_cases h0 : pc = 0
+  · simp [h0, minOneLeft, acceptD, hu1]
+  · have hp : pc > 0 := lt_of_le_of_ne hpc (Ne.symm h0)
+    simp [h0, hp, minOneLeft, acceptD, hu1]
+
+/-- with the arguments of `std::min` swapped the NaN survives and `u < NaN` is false: the chain is frozen on the plateau -/
+theorem swapped_min_freezes (u : Rat) : acceptD u (minOneRight (pdfRatio 0 0)) = false := by
+  simp [pdfRatio, minOneRight, acceptD]
+
+/-- the two argument orders agree on every ratio that is not NaN -/
+theorem minOne_orders_agree (r : Ratio) (u : Rat) (h : r ≠ .nan) : acceptD u (minOneLeft r) = acceptD u (minOneRight r) := by
+  cases r with
+  | nan => exact absurd rfl h
+  | posInf => rfl
+  | negInf => rfl
+  | fin q =>
+    simp only [minOneLeft, minOneRight, acceptD]
+    by_cases h1 : q < 1
+    · rw [if_pos h1, if_neg (not_lt.mpr (le_of_lt h1))]
+    · rw [if_neg h1]
+      by_cases h2 : 1 < q
+      · rw [if_pos h2]
+      · have : q = 1 := le_antisymm (not_lt.mp h2) (not_lt.mp h1)
+        rw [if_neg h2, this]
+
+/-- the step of the model: from a point of density 0 every in-domain proposal of non-negative density is taken -/
+theorem metroStep1_zero_plateau (u01 : U01 G) (hu : Unit01 u01) (cand : G → Rat → Rat × G) (pdf : Rat → Rat)
+    (lo hi x : Rat) (g : G) (hx : pdf x = 0) (hc : 0 ≤ pdf (cand g x).1) (hin : lo ≤ (cand g x).1 ∧ (cand g x).1 ≤ hi) :
+    (metroStep1 u01 cand pdf (some (lo, hi)) x g).1 = (cand g x).1 := by
+  simp only [metroStep1]
+  have hnot : ¬ ((cand g x).1 < lo ∨ (cand g x).1 > hi) := by
+    rintro (h | h)
+    · exact absurd hin.1 (not_le.mpr h)
+    · exact absurd hin.2 (not_le.mpr h)
+  have hu1 : (sampleUniform u01 (cand g x).2 0 1).1 < 1 := by
+    have := (hu (cand g x).2).2
+    simp only [sampleUniform]; linarith
+  simp only [if_neg hnot, accProb, hx, if_true, if_neg (not_lt.mpr hc), if_pos hu1]
+
 /-! ## Parameter guards (fix d65f15f): which requests stop with a diagnostic, and that nothing else changed -/
 
 theorem sampleUniformG_error_iff (u01 : U01 G) (g : G) (a b : Rat) :
